@@ -107,6 +107,13 @@ def _impl_do(op):
     if kind == "DECSRC":
         _, mode, tname, cc, enc, data, src = op
         return canon.impl_dec(mode, tname, cc, enc, data, source=src)
+    if kind == "ENUMDERIVE":
+        return canon.impl_enum_derive()
+    if kind == "LATE":
+        return canon.impl_late(op[1], op[2])
+    if kind == "DECFRONT":
+        _, mode, tname, cc, enc, text, front = op
+        return canon.impl_dec(mode, tname, cc, enc, text, front=front)
     if kind == "DECROOT":
         # the same decode below a caller-supplied root path; the prefix is stripped again so that the lines are comparable
         _, mode, tname, cc, enc, data, root = op
@@ -149,6 +156,12 @@ def run_impl(ops):
         return [_impl_one(o) for o in ops]
     with mp.Pool(NPROC) as pool:
         return pool.map(_impl_one, ops, chunksize=max(1, len(ops) // (NPROC * 8)))
+
+
+def run_impl_fresh(ops):
+    """every op in a process of its own (for ops whose outcome depends on what the process did before)"""
+    with mp.Pool(min(NPROC, max(1, len(ops))), maxtasksperchild=1) as pool:
+        return pool.map(_impl_one, ops, chunksize=1)
 
 
 def op_line(op):
